@@ -164,7 +164,11 @@ def impl():
     return _impl
 
 
-def new_tracker(cfg):
+def new_tracker(cfg, reset_track_objects=True):
+    """The tracker under test.  IDEALISATION (named in notes/C09.md): `Tracker._track_objects` is a class-level attrs
+    default `{}`, i.e. ONE dict shared by every tracker of the process (a second tracker hands out the first one's
+    `sio.Track` objects); by default each generated history gets a tracker with a dict of its own.
+    `reset_track_objects=False` leaves the shared dict in place (see `run_impl_interleaved`)."""
     im = impl()
     feat, scoring = cfg["features"], cfg["scoring"]
     t = im["RecTracker"].from_config(
@@ -192,7 +196,8 @@ def new_tracker(cfg):
             return r, c
         return inner
     t._track_matching_methods = {k: wrap(v) for k, v in orig.items()}
-    t._track_objects = {}                      # the class-level default dict is shared between trackers
+    if reset_track_objects:
+        t._track_objects = {}                  # the class-level default dict is shared between trackers
     return t
 
 
@@ -210,32 +215,60 @@ def stale_tracks(t, cfg):
     return out
 
 
+def _track_frame(t, cfg, fi, fr):
+    """one call of t.track on frame `fr` (list of detection dicts), with everything recorded"""
+    insts = [make_inst(d) for d in fr]
+    t.rec.clear()
+    rec = {"n_tracks_before": len(t.candidate.current_tracks), "stale": stale_tracks(t, cfg), "insts": insts}
+    with warnings.catch_warnings():
+        warnings.simplefilter("ignore")
+        image = (image_as(frame_image(fr, blank=fi in cfg.get("blank", ())), cfg.get("img_mode"))
+                 if cfg.get("flow") else None)
+        try:
+            res = t.track(insts, fi, image)
+            rec["out"] = res
+        except Exception as e:
+            rec["raises"] = type(e).__name__
+            rec["msg"] = str(e)[:120]
+    rec.update(t.rec)
+    rec["n_tracks_after"] = len(t.candidate.current_tracks)
+    return rec
+
+
 def run_impl(cfg, hist):
     """hist: list of frames, frame = list of detection dicts.  Returns a list of
     per-frame records {out | raises, scores, answer, ...}; stops after an exception."""
-    im = impl()
+    impl()
     t = new_tracker(cfg)
     recs = []
     for fi, fr in enumerate(hist):
-        insts = [make_inst(d) for d in fr]
-        t.rec.clear()
-        rec = {"n_tracks_before": len(t.candidate.current_tracks), "stale": stale_tracks(t, cfg), "insts": insts}
-        with warnings.catch_warnings():
-            warnings.simplefilter("ignore")
-            image = (image_as(frame_image(fr, blank=fi in cfg.get("blank", ())), cfg.get("img_mode"))
-                     if cfg.get("flow") else None)
-            try:
-                res = t.track(insts, fi, image)
-                rec["out"] = res
-            except Exception as e:
-                rec["raises"] = type(e).__name__
-                rec["msg"] = str(e)[:120]
-        rec.update(t.rec)
-        rec["n_tracks_after"] = len(t.candidate.current_tracks)
+        rec = _track_frame(t, cfg, fi, fr)
         recs.append(rec)
         if "raises" in rec:
             break
     return recs
+
+
+def run_impl_interleaved(cases):
+    """Several trackers alive in ONE process, `Tracker._track_objects` left as the code has it (class-level dict, shared),
+    their histories advanced frame by frame in turn.  Returns (list of recs per case, facts about the sharing)."""
+    impl()
+    ts = [new_tracker(cfg, reset_track_objects=False) for cfg, _ in cases]
+    recs = [[] for _ in cases]
+    dead = set()
+    for fi in range(max(len(h) for _, h in cases)):
+        for k, (cfg, hist) in enumerate(cases):
+            if k in dead or fi >= len(hist):
+                continue
+            rec = _track_frame(ts[k], cfg, fi, hist[fi])
+            recs[k].append(rec)
+            if "raises" in rec:
+                dead.add(k)
+    tracks = [{id(i.track): i.track for r in rs for i in r.get("out", []) if i.track is not None} for rs in recs]
+    shared_objs = sum(1 for a in range(len(tracks)) for b in range(a + 1, len(tracks)) if set(tracks[a]) & set(tracks[b]))
+    facts = {"dict_is_shared": all(t._track_objects is ts[0]._track_objects for t in ts),
+             "tracker_pairs_sharing_a_Track_object": shared_objs}
+    return recs, facts
 
 
 def out_pairs(rec):
@@ -275,6 +308,9 @@ def canswer(rec) -> str:
 
 
 def cconfig(cfg, fixes) -> str:
+    # fix_iii of the model is read only by `scores_raise` when the model is EVALUATED (the matcher's answer / failure is a
+    # recorded input), hence `iii_scores`; the theorems' Hungarian contract uses the same switch, and the checks record
+    # whether the two F4iii repairs agree on the code under test (`coverage.code_behaviour`)
     fi = fixes["i_lq"] if cfg["lq"] else fixes["i_fw"]
     return "(mkConfig %s %s %d %s %s %s %s)" % (
         core.cbool(cfg["lq"]), core.cbool(cfg["greedy"]), cfg["window"], core.cbool(cfg["red_max"]),
